@@ -8,7 +8,7 @@ VERUS = os.environ.get("VERIF_VERUS", "verus")
 
 
 def run_verus(path, rlimit=None, seed=None, timeout=900, extra=()):
-    cmd = [VERUS, os.path.basename(path), "--output-json", "--time", "--multiple-errors", "40",
+    cmd = [VERUS, os.path.basename(path), "--output-json", "--time", "--multiple-errors", "12",
            "--error-format=json", "--triggers-mode", "silent"]
     if rlimit:
         cmd += ["--rlimit", str(rlimit)]
